@@ -70,6 +70,9 @@ func replayStreamFromChan(clck clock.Clock, points <-chan edge.PointMessage, col
 	return nil
 }
 
+// maxRecordingLineSize is the longest line of a stream recording that can be replayed.
+const maxRecordingLineSize = 64 * 1024 * 1024
+
 func readPointsFromIO(data io.ReadCloser, points chan<- edge.PointMessage, precision string) error {
 	defer data.Close()
 	defer close(points)
@@ -77,6 +80,8 @@ func readPointsFromIO(data io.ReadCloser, points chan<- edge.PointMessage, preci
 	now := time.Time{}
 
 	in := bufio.NewScanner(data)
+	// The default token limit of 64KiB is less than a single point with a large string field.
+	in.Buffer(make([]byte, 0, bufio.MaxScanTokenSize), maxRecordingLineSize)
 	for in.Scan() {
 		db := in.Text()
 		if !in.Scan() {
